@@ -119,12 +119,13 @@ func c18Dispatch(c *Ctx) {
 }
 
 type traceReqSpec struct {
-	Method string
-	Path   string
-	Query  string
-	Host   string
-	Header map[string]string
-	Body   string
+	Method  string
+	Path    string
+	Query   string
+	Host    string
+	Header  map[string]string
+	Body    string
+	Framing string // "", "unknown-length" (ContentLength -1), "chunked", "zero-length-declared"
 }
 
 func (t traceReqSpec) build() *http.Request {
@@ -136,6 +137,13 @@ func (t traceReqSpec) build() *http.Request {
 	if t.Body != "" {
 		r.Body = io.NopCloser(strings.NewReader(t.Body))
 		r.ContentLength = int64(len(t.Body))
+		switch t.Framing {
+		case "unknown-length":
+			r.ContentLength = -1
+		case "chunked":
+			r.ContentLength = -1
+			r.TransferEncoding = []string{"chunked"}
+		}
 	}
 	return r
 }
@@ -152,6 +160,10 @@ func c18Helper(c *Ctx) {
 		}
 		if r.Bool() {
 			spec.Body = ref.Pick(r, traceChunks) + ref.Pick(r, traceChunks) + strings.Repeat("z", r.Intn(50))
+			spec.Framing = ref.Pick(r, []string{"", "", "unknown-length", "chunked"})
+			if spec.Framing != "" {
+				c.Class("helper_body_of_unknown_length")
+			}
 		}
 		withBody := r.Bool()
 		rw := mon.NewRW()
